@@ -227,6 +227,92 @@ def attr_src(derive, a):
     return "#[%s(%s)] " % (ATTR[derive], ", ".join(a))
 
 
+# ---- the full attribute syntax (nested lists, `not(..)`, several attributes, name-value): expansion-level tie
+# attribute := "path" | "nv" | ["list", [item...]] ; item := name | [name, [item...]]
+
+COQ_NAME = {"ignore": "NIgnore", "owned": "NOwned", "ref": "NRef", "ref_mut": "NRefMut", "not": "NNot"}
+
+
+def ritem_src(it):
+    if isinstance(it, str):
+        return it
+    return "%s(%s)" % (it[0], ", ".join(ritem_src(x) for x in it[1]))
+
+
+def rattrs_src(derive, attrs):
+    out = []
+    for a in attrs:
+        if a == "path":
+            out.append("#[%s]" % ATTR[derive])
+        elif a == "nv":
+            out.append('#[%s = "x"]' % ATTR[derive])
+        else:
+            out.append("#[%s(%s)]" % (ATTR[derive], ", ".join(ritem_src(x) for x in a[1])))
+    return "".join(x + " " for x in out)
+
+
+def ritem_coq(it):
+    if isinstance(it, str):
+        return "MPath %s" % COQ_NAME.get(it, "NOther")
+    return "MList %s [%s]" % (COQ_NAME.get(it[0], "NOther"), "; ".join(ritem_coq(x) for x in it[1]))
+
+
+def rattrs_coq(attrs):
+    out = []
+    for a in attrs:
+        out.append("RPath" if a == "path" else "RNameValue" if a == "nv" else "RList [%s]" % "; ".join(ritem_coq(x) for x in a[1]))
+    return "[" + "; ".join(out) + "]"
+
+
+def enrich_attr(rng, a, level):
+    """a flat attribute written in the full syntax, sometimes with a construct the macro must reject"""
+    if a is None:
+        attrs = []
+    elif a == []:
+        attrs = [rng.choice(["path", ["list", []], ["list", [["not", []]]]])]
+    else:
+        items = []
+        for p in a:
+            r = rng.random()
+            if p != "ignore" and r < 0.35:
+                items.append([p, []])                       # owned() == owned
+            else:
+                items.append(p)
+            if rng.random() < 0.15:
+                items.append(["not", []])                   # not() is a no-op
+        attrs = [["list", items]]
+    r = rng.random()
+    if r < 0.04:
+        attrs = attrs + [rng.choice(["path", ["list", ["ignore"]]])]          # a second attribute
+    elif r < 0.07:
+        attrs = ["nv"]
+    elif r < 0.16 and attrs and attrs[0] not in ("path", "nv"):
+        bad = rng.choice([["owned", ["ignore"]], ["ref", [["not", []]]], ["not", ["ignore"]], ["not", [["not", []]]],
+                          ["ignore", []], "forward", ["types", ["i32"]], "not", ["ref_mut", ["owned"]], ["owned", [["ref", []]]]])
+        items = list(attrs[0][1])
+        items.insert(rng.randrange(len(items) + 1), bad)
+        attrs = [["list", items]]
+    return attrs
+
+
+def enrich(rng, d):
+    d = json.loads(json.dumps(d))
+    d["style"] = "rich"
+    d["rich"] = True
+    d["rattrs"] = enrich_attr(rng, d["attr"], "enum")
+    for v in d["variants"]:
+        v["rattrs"] = enrich_attr(rng, v["attr"], "variant")
+        for f in v["fields"]:
+            f["rattrs"] = enrich_attr(rng, f["attr"], "field") if rng.random() < 0.5 else enrich_attr(rng, None, "field") if f["attr"] is None else enrich_attr(rng, f["attr"], "field")
+    return d
+
+
+def any_attr_src(d, x):
+    if d.get("rich"):
+        return rattrs_src(d["derive"], x["rattrs"])
+    return attr_src(d["derive"], x["attr"])
+
+
 def vident(v):
     return ("r#" if v["raw"] else "") + v["name"]
 
@@ -240,26 +326,28 @@ def decl_src(d, for_crate=False):
     gdecl = GENERICS[d["generics"]][0]
     vs = []
     for v in d["variants"]:
-        a = attr_src(d["derive"], v["attr"])
+        a = any_attr_src(d, v)
         if v["kind"] == "unit":
             body = ""
         elif v["kind"] == "tuple":
-            body = "(" + ", ".join(attr_src(d["derive"], f["attr"]) + f["ty"] for f in v["fields"]) + ")"
+            body = "(" + ", ".join(any_attr_src(d, f) + f["ty"] for f in v["fields"]) + ")"
         else:
-            body = " { " + ", ".join(attr_src(d["derive"], f["attr"]) + fname(j) + ": " + f["ty"]
+            body = " { " + ", ".join(any_attr_src(d, f) + fname(j) + ": " + f["ty"]
                                      for j, f in enumerate(v["fields"])) + " }"
         vs.append("    %s%s%s," % (a, vident(v), body))
     head = ""
     if for_crate:
         head = "#[derive(Clone, PartialEq, Debug, derive_more::%s)]\n" % d["derive"]
-    return "%s%spub enum %s%s {\n%s\n}" % (head, attr_src(d["derive"], d["attr"]).replace("] ", "]\n"), d["name"], gdecl,
-                                          "\n".join(vs))
+    ea = rattrs_src(d["derive"], d["rattrs"]) if d.get("rich") else attr_src(d["derive"], d["attr"])
+    return "%s%spub enum %s%s {\n%s\n}" % (head, ea.replace("] ", "]\n"), d["name"], gdecl, "\n".join(vs))
 
 
 # ------------------------------------------------------------------ the documented semantics (oracle)
 
 def documented(d):
     """is the declaration written with the documented attribute forms only (impl/doc/*.md)?"""
+    if d.get("rich"):
+        return False
     dv = d["derive"]
     va = [v["attr"] for v in d["variants"]]
     fa = [f["attr"] for v in d["variants"] for f in v["fields"]]
@@ -283,10 +371,10 @@ def documented(d):
     # on variants and the property ranges over per-variant selections. The oracle reads it as "the variant
     # additionally selects these kinds" (see `anchored` above).
     vsel = anchored and all(a in (None, ["ignore"]) or is_selection(a) for a in va)
-    # the recorded first-match defect (KNOWN_FINDINGS variant-level-ref-attr) has a TryInto face as well: when the first
-    # attributed variant names ref_mut together with ref or owned, the by-value default is switched off for the others.
-    # Those declarations are left to the model-vs-code ties.
-    return ok_e and (only_ign or only_wl or vsel) and all(a in (None, ["ignore"]) for a in fa) and not owned_default_quirk(d)
+    # the first-match defect has a TryInto face as well: when the first attributed variant names ref_mut together with
+    # ref or owned, the by-value default is switched off for the others (utils.rs:448-450). Those declarations are
+    # inside the oracle; their failures get the class `first-match-owned-default` (see owned_default_victim).
+    return ok_e and (only_ign or only_wl or vsel) and all(a in (None, ["ignore"]) for a in fa)
 
 
 def owned_default_quirk(d):
@@ -295,6 +383,12 @@ def owned_default_quirk(d):
 
 
 SEL = {"owned": "owned", "ref": "ref", "ref_mut": "mut"}
+
+
+def owned_default_victim(d, v):
+    """a non-ignored variant that loses its by-value form because State::new_impl computed the owned default as false
+    from the first attribute-bearing variant: neither the enum nor the variant itself says `owned`"""
+    return owned_default_quirk(d) and "owned" not in (v["attr"] or [])
 
 
 def is_selection(a):
@@ -509,12 +603,31 @@ def coq_enum(d):
     return "{| e_attr := %s; e_variants := [%s] |}" % (coq_attr(d["attr"]), "; ".join(vs))
 
 
+def coq_renum(d):
+    ids = type_ids(d)
+    vs = []
+    for v in d["variants"]:
+        fs = "; ".join("{| rf_ty := %d; rf_attrs := %s |}" % (ids[f["ty"]], rattrs_coq(f["rattrs"])) for f in v["fields"])
+        vs.append("{| rv_ident := {| id_raw := %s; id_name := %s |}; rv_kind := %s; rv_fields := [%s]; rv_attrs := %s |}" % (
+            "true" if v["raw"] else "false", coq_str(v["name"]),
+            {"unit": "KUnit", "tuple": "KTuple", "named": "KNamed"}[v["kind"]], fs, rattrs_coq(v["rattrs"])))
+    return "{| re_attrs := %s; re_variants := [%s] |}" % (rattrs_coq(d["rattrs"]), "; ".join(vs))
+
+
 def coq_expr(d):
+    """the model's table; failure messages are rendered by the model (Model.panic_msg, try_unwrap_error_display,
+    try_into_error_display)"""
+    en = coq_str(d["name"])
     if d["derive"] == "TryInto":
-        return "table_try_into %s" % coq_enum(d)
-    tab = "[" + "; ".join("(%s, %s)" % (coq_str(v["name"]), coq_str(snake(v["name"]))) for v in d["variants"]) + "]"
-    fn = {"IsVariant": "table_is", "Unwrap": "table_unwrap", "TryUnwrap": "table_try_unwrap"}[d["derive"]]
-    return "%s %s %s" % (fn, tab, coq_enum(d))
+        tt = "[" + "; ".join("(%d, %s)" % (i, coq_str(TYPES[t][1])) for t, i in type_ids(d).items()) + "]"
+        fn = "table_try_into_m %s" % tt
+    else:
+        tab = "[" + "; ".join("(%s, %s)" % (coq_str(v["name"]), coq_str(snake(v["name"]))) for v in d["variants"]) + "]"
+        fn = {"IsVariant": "table_is %s" % tab, "Unwrap": "table_unwrap_m %s %s" % (en, tab),
+              "TryUnwrap": "table_try_unwrap_m %s %s" % (en, tab)}[d["derive"]]
+    if d.get("rich"):
+        return "rich _ (fun e => %s e) %s" % (fn, coq_renum(d))
+    return "%s %s" % (fn, coq_enum(d))
 
 
 def m_ident(t):
@@ -546,8 +659,9 @@ def model_table(d, term):
             name, obs = row
             out.append((("fn", py_str(name), "ref"), [("B", o == "true") for o in obs]))
         elif d["derive"] in ("Unwrap", "TryUnwrap"):
-            name, mode, obs = row
+            name, mode, template, obs = row
             name = py_str(name)
+            template = py_str(template)          # Model.panic_msg / try_unwrap_error_display with a hole for the variant
             mode = COQ_MODE[mode]
             res = []
             for o in obs:
@@ -558,20 +672,19 @@ def model_table(d, term):
                     res.append(("R" if mode == "owned" else "A", idx))
                     assert k in (None, {"owned": "Val", "ref": "Ref", "mut": "RefMut"}[mode]), (k, mode)
                 elif o[0] == "Panics":
-                    res.append(("P", "called `%s::%s()` on a `%s::%s` value" % (en, py_str(o[1]), en, m_ident(o[2]))))
+                    assert py_str(o[1]) == name
+                    res.append(("P", template.replace("\0", m_ident(o[2]))))
                 elif o[0] == "TErr":
-                    assert o[1][0] == "Whole" and COQ_MODE[o[1][1]] == mode, o
-                    res.append(("E", True, "Attempt to call `%s::%s()` on a `%s::%s` value" % (en, py_str(o[2]), en, m_ident(o[3]))))
+                    assert o[1][0] == "Whole" and COQ_MODE[o[1][1]] == mode and py_str(o[2]) == name, o
+                    res.append(("E", True, template.replace("\0", m_ident(o[3]))))
                 else:
                     raise ValueError(o)
             out.append((("fn", name, mode), res))
         else:
-            mode, tys, vnames, obs = row
+            mode, tys, msg, obs = row
             mode = COQ_MODE[mode]
             tys = tuple(inv[t] for t in tys)
-            toks = [TYPES[t][1] for t in tys]
-            outty = toks[0] if len(toks) == 1 else "(" + ", ".join(toks) + ")"
-            msg = "Only %s can be converted to %s" % (", ".join(m_ident(i) for i in vnames), outty)
+            msg = py_str(msg)                     # Model.try_into_error_display
             res = []
             for o in obs:
                 if o == "IStuck":
@@ -976,9 +1089,12 @@ def run(tier, seed, replay):
         decls += rt_sel
         matrix = attr_matrix() + [x for x in sm if not any(x is y for y in rt_sel)]
         if tier == "quick":
-            matrix = rng.sample(matrix, 700)
+            matrix = rng.sample(matrix, 520)
+        for dv in DERIVES:                                # the full attribute syntax (utils.rs:813-1042), expansion level
+            for _ in range(45 if tier == "quick" else 800):
+                matrix.append(enrich(rng, gen_decl(rng, dv, rng.choice(["wild", "wild", "plain", "vsel" if dv != "IsVariant" else "plain"]), 0)))
         for dv in DERIVES:                                # more wild declarations for the expansion-level tie
-            for _ in range(100 if tier == "quick" else 1500):
+            for _ in range(60 if tier == "quick" else 1500):
                 matrix.append(gen_decl(rng, dv, "wild", 0))
     allk = decls + matrix
     for k, d in enumerate(allk):
@@ -1036,7 +1152,12 @@ def run(tier, seed, replay):
                                   "method names %s are not prefix + snake_case(variant) + suffix for %s" % (odd, src.replace("\n", " ")))
                 if missing:
                     if d["derive"] == "TryInto":
-                        cls = "try-into-impl-missing"
+                        # a missing by-value impl whose every candidate variant is a victim of the first-match owned default
+                        def victims_only(k):
+                            cands = [w for w in d["variants"] if not doc_ignored(d, w) and
+                                     tuple(f["ty"] for f in w["fields"] if f["attr"] != ["ignore"]) == tuple(k[2])]
+                            return k[1] == "owned" and cands and all(owned_default_victim(d, w) for w in cands)
+                        cls = "first-match-owned-default" if all(victims_only(k) for k in missing) else "try-into-impl-missing"
                     elif has_variant_ref(d) and known_variant_ref_shape(d, missing):
                         cls = "variant-level-ref-attr"
                     else:
@@ -1149,7 +1270,11 @@ def run(tier, seed, replay):
                     wants = oracle_obs(d, oacc, vi)
                     if not any(tuple(o[:len(w)] if w[0] in ("P", "E") else o) == tuple(w) for w in wants):
                         want = wants[0]
-                        chk.violation("table:%s:%s" % (d["derive"], want[0] + "-" + o[0]),
+                        cls = "table:%s:%s" % (d["derive"], want[0] + "-" + o[0])
+                        if d["derive"] == "TryInto" and acc[0] == "impl" and acc[1] == "owned" and want[0] == "R" \
+                                and o[0] == "E" and o[1] is True and owned_default_victim(d, v):
+                            cls = "first-match-owned-default"      # Err with the unchanged input, by-value default off
+                        chk.violation(cls,
                                       {"decl": d, "source": src, "accessor": key, "value_variant": v["name"], "expected": wants, "observed": o},
                                       "%s applied to a `%s` value of %s: expected %s, observed %s" %
                                       (key, v["name"], src.replace("\n", " "), wants, o))
@@ -1159,9 +1284,9 @@ def run(tier, seed, replay):
                      "by the macro and are read by the oracle as additional kinds for that variant, the by-value form being the default "
                      "that no attribute takes away (as on the tree and in unwrap.md). The oracle applies that reading next to an "
                      "enum-level list or when every variant carries its own attribute; a bare attribute-less variant next to "
-                     "attributed ones is subject to the first-match whitelisting (known finding variant-level-ref-attr) and, for "
-                     "TryInto, declarations whose first attributed variant names ref_mut with ref/owned (by-value default switched off "
-                     "by the same rule) are left to the model-vs-code ties")
+                     "attributed ones is subject to the first-match whitelisting (known finding variant-level-ref-attr); TryInto "
+                     "declarations whose first attributed variant names ref_mut with ref/owned lose the by-value default of the other "
+                     "variants by the same rule: class first-match-owned-default")
     chk.bump("runtime_pairs", n_pairs)
     chk.cov["traces_validated_against_impl"] += n_tie2
     chk.cov["runtime_table"] = {"enums": len(cases), "pairs": n_pairs, "exhaustive": True,
